@@ -99,7 +99,8 @@ class BleController(AbstractController):
             discovery = BleDiscovery(self, device, data, advertisement_data)
             logger.debug("BLE device for %s found, fulfilling futures", data.id)
             for future in futures:
-                future.set_result(discovery)
+                if not future.done():
+                    future.set_result(discovery)
             futures.clear()
 
         if old_discovery:
@@ -150,6 +151,7 @@ class BleController(AbstractController):
             timeout,
         )
         future = asyncio.get_running_loop().create_future()
+        self._ble_futures.setdefault(device_id, []).append(future)
         try:
             async with asyncio_timeout(timeout):
                 return await future
